@@ -125,7 +125,7 @@ func c20nRun(c c20nCase) (*Violation, int) {
 
 func c20nGen(t *rapid.T) c20nCase {
 	var c c20nCase
-	c.Cfg = harness.Config{Seed: rapid.Uint64Range(1, 1<<32).Draw(t, "seed"), Modules: []string{"auth", "confirm", "lock", "logout", "otp", "recover", "register", "remember"},
+	c.Cfg = harness.Config{Seed: rapid.Uint64Range(1, 1<<32).Draw(t, "seed"), Modules: []string{"auth", "confirm", "lock", "logout", "otp", "recover", "register", "remember", "oauth2"}, Providers: []string{"goog"}, ProviderParams: true,
 		Setups: []string{"expire", "totp", "sms", "recovery"}, Mount: pick(t, "mount", "/auth", ""), JSON: chance(t, "json", 50), Browsers: 2, Middleware: "remember",
 		LockAfter: 4, LockWindowS: 300, LockDurS: 600, RecoverLogin: chance(t, "reclogin", 50), ModuleList: chance(t, "modlist", 50), Err500: chance(t, "err500", 50), Refusal: 1}
 	for i := 0; i < 2; i++ {
